@@ -189,8 +189,9 @@ def gen_sel(rng, n):
     r = rng.random()
     if r < 0.2: return None
     if r < 0.7:
-        b = lambda: None if rng.random() < 0.3 else rng.randint(-n - 2, n + 2)
-        return ['slice', b(), b(), None if rng.random() < 0.3 else rng.choice([1, 2, 3, rng.randint(1, n + 1)])]
+        lo = None if rng.random() < 0.4 else rng.choice([rng.randint(0, max(0, n // 2)), rng.randint(-n - 2, n + 2)])
+        hi = None if rng.random() < 0.4 else rng.choice([rng.randint(n // 2, n + 2), rng.randint(-n - 2, n + 2)])
+        return ['slice', lo, hi, None if rng.random() < 0.3 else rng.choice([1, 2, 3, rng.randint(1, n + 1)])]
     return ['sample', rng.choice([1, 2, 3, n, n + 1, rng.randint(1, max(1, n))])]
 
 
@@ -319,65 +320,68 @@ def run_case(ctx, mods, lp, frames, recs, calls_by_ft, model_index, model_pop, r
             'calls': {str(k): [[s, None if c is None else [i.hex() for i in c]] for s, c in v] for k, v in calls_by_ft.items()}}
     li, data = impl_open(mods, recs, ctx.rng if record else None)
     pos = [i for i, r in enumerate(recs) if not r[0] and not r[1]]       # record ordinals of the frame records
-    with li:
-        lf = li.logical_files[0]
-        # log pass structure
-        ctx.count('oracle_cases')
-        got = [[(ch.ident, ch.rep_code, list(ch.dimensions)) for ch in fa.channels] for fa in lf.log_pass.frame_arrays]
-        want = [[(c['ident'].decode('ascii'), c['rc'], c['dims']) for c in ft['chans']] for ft in lp]
-        if got != want:
-            fails.append(f'log pass structure {got} != generated {want}')
-        # index: frame count, X and frame number
-        itxt = impl_index_txt(mods, li, lf)
-        if model_index is not None:
-            ctx.corr('index', {'op': 'index', 'lp': lp_txt(lp), 'recs': recs_txt(recs)}, itxt, model_index_cast(np, lp, model_index))
-        ctx.count('oracle_cases')
-        seen, want_parts = [], {}
-        for p, f in zip(pos, frames):
-            if f['vals'] is None: continue
-            k = f['ft']
-            if k not in seen: seen.append(k)
-            want_parts.setdefault(k, []).append(f"{p} {f['no']} {x_canon(np, expected_elem(np, lp[k]['chans'][0]['rc'], f['vals'][0][0]))}")
-        wtxt = ' '.join(['ok', str(len(seen))] + [' '.join([str(lp[k]['name'][0]), str(lp[k]['name'][1]), c03.hx(lp[k]['name'][2]),
-                                                         str(len(want_parts[k]))] + want_parts[k]) for k in seen])
-        if itxt != wtxt:
-            fails.append(f'position map differs: got {itxt[:200]!r} want {wtxt[:200]!r}')
-        # populate histories
-        for k, calls in calls_by_ft.items():
-            ft = lp[k]
-            fa = lf.log_pass.frame_arrays[k]
-            rows = [f['vals'] for f in frames if f['ft'] == k and f['vals'] is not None]
-            mreplies = None
-            if model_pop is not None and k in model_pop:
-                mr = model_pop[k]
-                mreplies = mr.split(' | ')[1:] if mr.startswith('ok') else None
-                if mreplies is None:
-                    ctx.corr('populate', {'op': 'populate', 'ft': k}, 'index ok', mr)
-            for j, (sel, chans) in enumerate(calls):
-                out, n = impl_call(mods, lf, fa, sel, chans)
-                if mreplies is not None:
-                    m = mreplies[j]
-                    if m.startswith('ok'):
-                        t = m.split(' ', 2)
-                        m = f'ok {t[1]} ' + model_arrays_cast(np, ft, t[2])
-                    ctx.corr('populate', {'op': 'populate', 'ft': k, 'call': j, 'sel': sel}, out, m)
-                ctx.count('oracle_cases')
-                want, idx = expected_call(np, ft, rows, sel, chans)
-                if not idx:
-                    ctx.count('calls_selecting_nothing')
-                    if not out.startswith('err ExceptionFrameArray'):
-                        fails.append(f'frame type {k} call {j} {sel}: selecting no frame gave {out[:80]!r}')
-                    continue
-                if out != want:
-                    fails.append(f'frame type {k} call {j} sel={sel} chans={chans}: got {out[:160]!r} want {want[:160]!r}')
-                elif record:
-                    ctx.count('calls_ok')
-                    sub = chans is not None and any(c['ident'] not in chans for c in ft['chans'][1:])
-                    if 2 <= len(idx) < len(rows) or sub:
-                        ctx.nontriv((hash(data), k, j))
-                    if sub: ctx.count('calls_channel_subset')
-                    if sel is not None: ctx.count('calls_' + sel[0])
-                    if any(len(c['dims']) >= 2 for c in ft['chans']): ctx.count('calls_multidim')
+    try:
+      with li:
+          lf = li.logical_files[0]
+          # log pass structure
+          ctx.count('oracle_cases')
+          got = [[(ch.ident, ch.rep_code, list(ch.dimensions)) for ch in fa.channels] for fa in lf.log_pass.frame_arrays]
+          want = [[(c['ident'].decode('ascii'), c['rc'], c['dims']) for c in ft['chans']] for ft in lp]
+          if got != want:
+              fails.append(f'log pass structure {got} != generated {want}')
+          # index: frame count, X and frame number
+          itxt = impl_index_txt(mods, li, lf)
+          if model_index is not None:
+              ctx.corr('index', {'op': 'index', 'lp': lp_txt(lp), 'recs': recs_txt(recs)}, itxt, model_index_cast(np, lp, model_index))
+          ctx.count('oracle_cases')
+          seen, want_parts = [], {}
+          for p, f in zip(pos, frames):
+              if f['vals'] is None: continue
+              k = f['ft']
+              if k not in seen: seen.append(k)
+              want_parts.setdefault(k, []).append(f"{p} {f['no']} {x_canon(np, expected_elem(np, lp[k]['chans'][0]['rc'], f['vals'][0][0]))}")
+          wtxt = ' '.join(['ok', str(len(seen))] + [' '.join([str(lp[k]['name'][0]), str(lp[k]['name'][1]), c03.hx(lp[k]['name'][2]),
+                                                           str(len(want_parts[k]))] + want_parts[k]) for k in seen])
+          if itxt != wtxt:
+              fails.append(f'position map differs: got {itxt[:200]!r} want {wtxt[:200]!r}')
+          # populate histories
+          for k, calls in calls_by_ft.items():
+              ft = lp[k]
+              fa = lf.log_pass.frame_arrays[k]
+              rows = [f['vals'] for f in frames if f['ft'] == k and f['vals'] is not None]
+              mreplies = None
+              if model_pop is not None and k in model_pop:
+                  mr = model_pop[k]
+                  mreplies = mr.split(' | ')[1:] if mr.startswith('ok') else None
+                  if mreplies is None:
+                      ctx.corr('populate', {'op': 'populate', 'ft': k}, 'index ok', mr)
+              for j, (sel, chans) in enumerate(calls):
+                  out, n = impl_call(mods, lf, fa, sel, chans)
+                  if mreplies is not None:
+                      m = mreplies[j]
+                      if m.startswith('ok'):
+                          t = m.split(' ', 2)
+                          m = f'ok {t[1]} ' + model_arrays_cast(np, ft, t[2])
+                      ctx.corr('populate', {'op': 'populate', 'ft': k, 'call': j, 'sel': sel}, out, m)
+                  ctx.count('oracle_cases')
+                  want, idx = expected_call(np, ft, rows, sel, chans)
+                  if not idx:
+                      ctx.count('calls_selecting_nothing')
+                      if not out.startswith('err ExceptionFrameArray'):
+                          fails.append(f'frame type {k} call {j} {sel}: selecting no frame gave {out[:80]!r}')
+                      continue
+                  if out != want:
+                      fails.append(f'frame type {k} call {j} sel={sel} chans={chans}: got {out[:160]!r} want {want[:160]!r}')
+                  elif record:
+                      ctx.count('calls_ok')
+                      sub = chans is not None and any(c['ident'] not in chans for c in ft['chans'][1:])
+                      if 2 <= len(idx) < len(rows) or sub:
+                          ctx.nontriv((hash(data), k, j))
+                      if sub: ctx.count('calls_channel_subset')
+                      if sel is not None: ctx.count('calls_' + sel[0])
+                      if any(len(c['dims']) >= 2 for c in ft['chans']): ctx.count('calls_multidim')
+    except Exception as err:   # a well-formed file and a selection of at least one frame must not raise
+        fails.append(f'indexing or populating a well-formed file raised {type(err).__name__}: {str(err)[:120]}')
     if record:
         for d in fails:
             ctx.fail(case, d)
@@ -387,7 +391,7 @@ def run_case(ctx, mods, lp, frames, recs, calls_by_ft, model_index, model_pop, r
 def run(ctx):
     mods = _mods()
     rng = ctx.rng
-    N = ctx.n(700, 7000)
+    N = ctx.n(3000, 20000)
     cases = []
     for _ in range(N):
         lp = gen_logpass(rng)
